@@ -208,6 +208,95 @@ def no_value_cases(st, lo, hi):
         st.outcome("no-value")
 
 
+def default_class_family():
+    """(label, factory -> dict of classes).  Parent/child classes with class-level defaults, incl. falsy and inherited ones."""
+    def fam(parent_default, child_default):
+        def f():
+            cd = ObjectClassDict()
+            cd["a"] = Property(Integer(default=1))
+            cd["z"] = Property(String(default="zz"))
+            kw = {} if parent_default is NP else {"default": copy.deepcopy(parent_default)}
+            parent = ObjectMeta("Par", (Object,), cd, **kw)
+            cd2 = ObjectClassDict()
+            cd2["class_"] = Property(Integer(default=4), source="class")
+            kw2 = {} if child_default is NP else {"default": copy.deepcopy(child_default)}
+            child = ObjectMeta("Chi", (parent,), cd2, **kw2)
+            cd3 = ObjectClassDict()
+            cd3["base"] = Property(parent)
+            cd3["sub"] = Property(child)
+            holder = ObjectMeta("Holder", (Object,), cd3)
+            cd4 = ObjectClassDict()
+            cd4["sub"] = Property(child)
+            cd4["base"] = Property(parent)
+            holder2 = ObjectMeta("Holder2", (Object,), cd4)
+            return {"parent": parent, "child": child, "holder": holder, "holder2": holder2}
+
+        return f
+
+    out = []
+    for pd in (NP, {}, {"a": 5}, {"a": "bad"}, 0, None):
+        for cdft in (NP, {}, {"class": 9}, {"a": 2, "z": "q"}):
+            out.append(("parent default=%r, child default=%r" % (pd, cdft), fam(pd, cdft), pd, cdft))
+    return out
+
+
+def expected_no_value(cls_default, own_props_defaults):
+    """Reference model for calling a model class with no value."""
+    if isinstance(cls_default, NotPassed):
+        return ("NotPassed",)
+    return None
+
+
+def novalue_sequences(st, lo, hi):
+    import itertools as it
+
+    fams = default_class_family()[lo:hi]
+    calls = ["parent", "child", "holder", "holder2"]
+    for label, fac, pd, cdft in fams:
+        # baseline: each call alone on a fresh family
+        alone = {}
+        for c in calls:
+            classes = fac()
+            k, r = impl.do_call(classes[c], NP if c in ("parent", "child") else {})
+            alone[c] = (k, impl.canon_result(r) if k == impl.ACCEPT else None, type(r).__name__)
+            st.add("evaluations")
+            case = {"family": label, "sequence": [c]}
+            if k != impl.ACCEPT:
+                st.violation("no-value-call-raised:%s" % k, "%s: %s() raised %r" % (label, c, r), case)
+                continue
+            eff = cdft if (c == "child" and cdft is not NP) else pd
+            if c in ("parent", "child"):
+                want_cls = classes[c]
+                if isinstance(eff, NotPassed):
+                    if not isinstance(r, NotPassed):
+                        st.violation("no-value-invented", "%s: %s has no default but %s() returned %r" % (label, c, c, r), case)
+                else:
+                    k2, r2 = impl.do_call(fac()[c], copy.deepcopy(eff))
+                    if k2 == impl.ACCEPT:
+                        if not isinstance(r, want_cls) or impl.canon_result(r) != impl.canon_result(r2):
+                            st.violation("no-value-default-not-converted:class", "%s: %s() should equal %s(%r) = %r, got %r" % (label, c, c, eff, r2, r), case)
+                    elif impl.canon_result(r) != impl.canon_result(eff):
+                        st.violation("no-value-invalid-default-altered:class", "%s: %s() should return the invalid default %r as is, got %r" % (label, c, eff, r), case)
+        # histories of length 2 and 3 on ONE family: every later call must behave as it does alone
+        for seq in list(it.permutations(calls, 2)) + [("parent", "child", "holder"), ("holder", "child", "parent"), ("child", "parent", "child"), ("parent", "parent", "child")]:
+            classes = fac()
+            st.add("states")
+            st.add("transitions", len(seq))
+            st.add("nontrivial")
+            results = []
+            for c in seq:
+                k, r = impl.do_call(classes[c], NP if c in ("parent", "child") else {})
+                st.add("evaluations")
+                st.add("traces")
+                got = (k, impl.canon_result(r) if k == impl.ACCEPT else None, type(r).__name__)
+                if got != alone[c]:
+                    st.violation("no-value-history-dependent", "%s: after %s, %s() gives %s %s, alone it gives %s %s" % (label, list(seq[: len(results)]), c, got[2], str(got[1])[:120], alone[c][2], str(alone[c][1])[:120]), {"family": label, "sequence": list(seq)})
+                if k == impl.ACCEPT and any(r is prev for prev in results if isinstance(type(prev), ObjectMeta)):
+                    st.violation("no-value-shared-instance", "%s: two no-value calls returned the very same model object" % label, {"family": label, "sequence": list(seq)})
+                results.append(r)
+        st.outcome("novalue-sequences")
+
+
 def plan(tier, seed):
     sets = prop_sets()
     items = []
@@ -217,11 +306,17 @@ def plan(tier, seed):
             items.append(("decl", fi, lo, min(len(sets), lo + chunk)))
     ntrees = len(E.all_trees(2))
     items += [("novalue", lo, min(ntrees, lo + 300)) for lo in range(0, ntrees, 300)]
+    nf = len(default_class_family())
+    items += [("novalueseq", lo, min(nf, lo + 3)) for lo in range(0, nf, 3)]
     return {"items": items, "meta": {"forms": FORMS, "options": [o[0] for o in OPTIONS], "names": NAMES, "additionalProperties": [a[0] for a in ADDITIONAL], "property_sets": len(sets), "no_value_trees": ntrees, "exhaustive": True}}
 
 
 def work(item):
     st = runner.Stats()
+    if item[0] == "novalueseq":
+        novalue_sequences(st, item[1], item[2])
+        st.sample({"class_default_families": [f[0] for f in default_class_family()[item[1]:item[2]]]})
+        return st
     if item[0] == "novalue":
         no_value_cases(st, item[1], item[2])
         st.sample({"no_value_trees": [l for l, _ in E.all_trees(2)[item[1]:item[1] + 3]]})
@@ -243,6 +338,11 @@ def work(item):
 
 def replay(case):
     st = runner.Stats()
+    if "family" in case:
+        labels = [f[0] for f in default_class_family()]
+        i = labels.index(case["family"])
+        novalue_sequences(st, i, i + 1)
+        return [v for lst in st.violations.values() for _, v in lst]
     if "tree" in case:
         trees = E.all_trees(2)
         idx = [i for i, (l, _) in enumerate(trees) if l == case["tree"]]
